@@ -67,6 +67,9 @@ pub struct DupCase {
     /// query duplicates: put the decoy into the folded body instead of the URL
     pub in_body: bool,
     pub decoy_delta_s: i16,
+    /// parameters inside the Authorization header: this many unknown parameters (and empty pieces) between the two occurrences
+    #[serde(default)]
+    pub filler: u16,
 }
 
 pub fn subs() -> Vec<Box<dyn AnySub>> {
@@ -82,8 +85,9 @@ pub fn subs() -> Vec<Box<dyn AnySub>> {
                 plain_spelling: true,
                 ..PlanOpts::default()
             };
-            (plan(o), any::<u16>(), any::<bool>(), any::<bool>(), any::<bool>(), prop_oneof![Just(60i16), Just(-60), Just(1), -800i16..800])
-                .prop_map(|(plan, k, decoy_first, before_signing, in_body, decoy_delta_s)| make_case(plan, k, decoy_first, before_signing, in_body, decoy_delta_s))
+            let filler = prop_oneof![6 => Just(0u16), 2 => 1u16..40, 1 => 40u16..300, 1 => prop_oneof![Just(13u16), Just(14), Just(29), Just(30), Just(61), Just(62), Just(125), Just(126), Just(253), Just(254), Just(1000)]];
+            (plan(o), any::<u16>(), any::<bool>(), any::<bool>(), any::<bool>(), prop_oneof![Just(60i16), Just(-60), Just(1), -800i16..800], filler)
+                .prop_map(|(plan, k, decoy_first, before_signing, in_body, decoy_delta_s, filler)| DupCase { filler, ..make_case(plan, k, decoy_first, before_signing, in_body, decoy_delta_s) })
                 .boxed()
         },
         check: check_dup,
@@ -122,7 +126,7 @@ pub fn make_case_kind(mut plan: Plan, kind_index: usize, decoy_first: bool, befo
                         plan.spec.token = Some("genuine/token+1==".into());
                         plan.entry.token = plan.spec.token.clone();
                     }
-                    DupCase { plan, kind, decoy_first, before_signing, in_body, decoy_delta_s }
+                    DupCase { plan, kind, decoy_first, before_signing, in_body, decoy_delta_s, filler: 0 }
                 }
 
 fn insert_header(req: &mut WireRequest, name: &str, value: &str, first: bool, beside: &str) {
@@ -198,7 +202,16 @@ fn apply_dup(dc: &DupCase, req: &mut WireRequest, signed: bool) {
                 if n.eq_ignore_ascii_case("authorization") {
                     let s = latin1(&v.0);
                     let (alg, rest) = s.split_once(' ').unwrap_or((s.as_str(), ""));
-                    *v = B::from(if dc.decoy_first { format!("{} {}, {}", alg, extra, rest) } else { format!("{} {}, {}", alg, rest, extra) });
+                    let mut fill = String::new();
+                    for i in 0..dc.filler {
+                        fill.push_str(&match (i + dc.decoy_delta_s.unsigned_abs()) % 7 {
+                            0 => ", ".to_string(),
+                            1 => format!("x{}={}, ", i, i),
+                            2 => format!("Scope{}=, ", i),
+                            _ => format!("p{}=v, ", i),
+                        });
+                    }
+                    *v = B::from(if dc.decoy_first { format!("{} {}, {}{}", alg, extra, fill, rest) } else { format!("{} {}, {}{}", alg, rest, fill, extra) });
                 }
             }
         }
@@ -271,7 +284,7 @@ pub fn build_case(dc: &DupCase) -> Option<Case> {
 
 pub fn check_dup(dc: &DupCase, cc: &mut CaseCtx) -> CheckResult {
     use DupKind::*;
-    let p = &dc.plan;
+    let _p = &dc.plan;
     let inner = matches!(dc.kind, InnerCredential | InnerSignedHeaders | InnerSignature);
     let pre = dc.before_signing && !inner;
     let Some(case) = build_case(dc) else {
@@ -311,6 +324,7 @@ pub fn check_dup(dc: &DupCase, cc: &mut CaseCtx) -> CheckResult {
     cc.class(kind_name);
     cc.class(if a.verdict().is_accept() { "must-accept" } else { "must-reject" });
     cc.class_if(pre, "decoy-covered-by-signature");
+    cc.class_if(inner && dc.filler > 28, "over-28-parameters-between-the-occurrences");
     cc.nontrivial(digest_of(&[kind_name.as_bytes(), &[dc.decoy_first as u8, pre as u8, dc.in_body as u8], &case.req.digest().to_le_bytes()]));
     cc.sample(case_sample(&case, json!({"duplicate": kind_name, "decoy_first": dc.decoy_first, "inserted_before_signing": pre, "model": a.verdict().short(), "crate": o.res.short(),
         "provider_saw": o.call_queries().first().map(|q| format!("{:?}", q))})));
